@@ -24,7 +24,10 @@ use crate::{
         functions::{
             format_anonymous_function, format_call, format_function_call, FunctionCallNextNode,
         },
-        general::{format_contained_span, format_end_token, format_token_reference, EndTokenType},
+        general::{
+            format_contained_span, format_end_token, format_moved_comment, format_token_reference,
+            EndTokenType,
+        },
         table::format_table_constructor,
         trivia::{
             strip_leading_trivia, strip_trivia, FormatTriviaType, UpdateLeadingTrivia,
@@ -261,7 +264,7 @@ fn format_expression_internal(
                     .flat_map(|x| {
                         vec![
                             create_indent_trivia(ctx, shape),
-                            x.to_owned(),
+                            format_moved_comment(ctx, x, shape),
                             create_newline_trivia(ctx),
                         ]
                     })
@@ -273,7 +276,10 @@ fn format_expression_internal(
                     .filter(|token| trivia_util::trivia_is_comment(token))
                     .flat_map(|x| {
                         // Prepend a single space beforehand
-                        vec![Token::new(TokenType::spaces(1)), x.to_owned()]
+                        vec![
+                            Token::new(TokenType::spaces(1)),
+                            format_moved_comment(ctx, x, shape),
+                        ]
                     })
                     .collect();
 
@@ -920,13 +926,17 @@ fn hang_binop(ctx: &Context, binop: BinOp, shape: Shape, rhs: &Expression) -> Bi
             vec![
                 create_newline_trivia(ctx),
                 create_indent_trivia(ctx, shape),
-                x.to_owned(),
+                format_moved_comment(ctx, x, shape),
             ]
         })
         .collect::<Vec<_>>();
 
     // If there are any comments trailing the BinOp, we need to move them to before the BinOp
-    let mut trailing_comments = binop.trailing_comments();
+    let mut trailing_comments = binop
+        .trailing_comments()
+        .iter()
+        .map(|x| format_moved_comment(ctx, x, shape))
+        .collect();
     leading_comments.append(&mut trailing_comments);
 
     // If there are any leading comments to the RHS expression, we need to move them to before the BinOp
@@ -937,7 +947,7 @@ fn hang_binop(ctx: &Context, binop: BinOp, shape: Shape, rhs: &Expression) -> Bi
             vec![
                 create_newline_trivia(ctx),
                 create_indent_trivia(ctx, shape),
-                x.to_owned(),
+                format_moved_comment(ctx, x, shape),
             ]
         })
         .collect::<Vec<_>>();
